@@ -127,6 +127,7 @@ type kConn struct {
 	Client *centrifuge.Client
 	T      *kTransport
 	Cancel context.CancelFunc
+	CloseF centrifuge.ClientCloseFunc
 	nextID atomic.Uint32
 }
 
@@ -134,12 +135,12 @@ func newKConn(env *cl.Env, user string, proto centrifuge.ProtocolType) (*kConn, 
 	t := newKTransport(proto)
 	ctx, cancel := context.WithCancel(context.Background())
 	ctx = centrifuge.SetCredentials(ctx, &centrifuge.Credentials{UserID: user})
-	c, _, err := centrifuge.NewClient(ctx, env.Node, t)
+	c, closeFn, err := centrifuge.NewClient(ctx, env.Node, t)
 	if err != nil {
 		cancel()
 		return nil, err
 	}
-	return &kConn{Client: c, T: t, Cancel: cancel}, nil
+	return &kConn{Client: c, T: t, Cancel: cancel, CloseF: closeFn}, nil
 }
 
 func (c *kConn) NextID() uint32 { return c.nextID.Add(1) }
